@@ -9,6 +9,12 @@ CHECKS = {
    text='Decides two clauses statically: the 6- and 8-point Gauss-Legendre tables of dgmlt1/dgmlt2 satisfy the 2n moment identities exactly (decimal rationals from the AST literal spellings, tolerance 1e-13 as in the property), are (anti)symmetric and identical in both files. That is equivalent to exactness on all polynomials of degree <= 2n-1 on [-1,1]. The other kernels (adaptive quadrature, Simpson, golden section, divided differences, Fermi) are numerical statements and are not decided.',
    note='Trusted: clang-14 parser, d0ast exporter, Python Fraction arithmetic. Not decided: every kernel other than the GL tables / rotation shape.', ref='3/C16'),
 }
+CHECKS['C01'] = dict(cat='translation_validation', technique='structural translation validation: Fortran-77 reference vs C++ port (CFG bisimulation / symbolic path summaries over a common IR; constant propagation of the dispatch routine per published name)',
+   text='For every reference unit reachable from the background dispatch (85 units: 61 nuclide schemes, daughters, PbAtShell, beta/nucltransK*/pair/particle/fermi/tgold helpers) the normalised CFG of the shipped Decay0 2020-04-20 Fortran source and of its C++ counterpart are proved bisimilar (same branch thresholds, literals, call order, deviate order); the dispatch routine GENBBsub/genbbsub is specialised on each of the 69 published names by constant propagation on both sides and the residual programs compared. This decides the clause the property itself names (a wrong branching ratio, level energy, conversion coefficient, loop bound or call order), for all deviate sequences at once. It does not decide bit-level agreement or the numerics of replaced third-party routines.',
+   note='Trusted: clang-14 parser, d0ast exporter, the f77 front end and normal form of /verif (DESIGN.md 2.4, each rule applied to both sides), the explicit admissible-difference table (every use listed in evidence). Not decided: REAL*4 vs double rounding, GSL vs CERNLIB numerics.', ref='3/C01')
+CHECKS['C02'] = dict(cat='translation_validation', technique='structural translation validation (as C01) plus exhaustive constant-propagation grid of GENBBsub vs genbbsub over isotope x level x mode',
+   text='bb, the 26 spectrum functions, dshelp1/2, the 45 *low cascades, the alpha-chain units and shared helpers are compared with the reference as in C01; the double-beta half of GENBBsub/genbbsub is specialised by constant propagation on every (isotope, level -1..17, mode 0..25) point and the residual straight-line programs compared: accept/reject, Q, Z, A, EK, level energy, spin flag, de-excitation routine and follow-up chain. Values of pre-computed spectra and rejection trajectories are not decided.',
+   note='Same trusted base as C01. Known findings: three reference cascades never ported (Ti46low, W184low, Pt192low), mode-20 level coercion, fermi literal 0.511.', ref='3/C02')
 NA = {}
 
 def main():
